@@ -69,6 +69,19 @@ fn start_positions() -> Vec<usize> {
     ]
 }
 
+/// A start position next to 0, the sign bit or usize::MAX: exactly on the boundary, or up to 300
+/// steps before/after it so that larger populations cross it too.
+fn pick_start(r: &mut Rng) -> usize {
+    let base = r.pick(&start_positions());
+    if r.chance(1, 2) {
+        base
+    } else if r.chance(1, 2) {
+        base.wrapping_sub(r.below(300) as usize)
+    } else {
+        base.wrapping_add(r.below(300) as usize)
+    }
+}
+
 #[derive(Clone, Copy)]
 struct BehMix {
     p_ready: u64,   // of 100
@@ -389,7 +402,7 @@ pub fn generate(workload: Workload, subject: SubjectKind, seed: u64) -> (Config,
         cfg.cap = 1 + r.below(4) as usize;
     }
     if subject.ordered() && r.chance(3, 10) {
-        cfg.start_pos = Some(r.pick(&start_positions()));
+        cfg.start_pos = Some(pick_start(r));
     }
     let mut n_ops = match r.below(10) {
         0..=5 => r.range(5, 30),
@@ -637,7 +650,7 @@ pub fn generate(workload: Workload, subject: SubjectKind, seed: u64) -> (Config,
             }
         }
         Workload::Wrap => {
-            cfg.start_pos = Some(r.pick(&start_positions()));
+            cfg.start_pos = Some(pick_start(r));
             if class == Class::Collection {
                 cfg.ctor = if subject.bounded() || r.chance(1, 2) { Ctor::New } else { Ctor::WithCapacity };
                 cfg.initial.clear();
